@@ -107,6 +107,19 @@ def amp_of(cfg, field, d, sol_dense):
     return c04.amp_of_run(dataclasses.replace(cfg, fact="dense"), field, d, sol_dense, None)
 
 
+def amp_per_dim(cfg, field, d, sol_dense):
+    """cancellation factor of every dimension's own residual along the dense run (block-diagonal scales)"""
+    cfgd = dataclasses.replace(cfg, fact="dense")
+    fil = L.filtering_of(cfgd, sol_dense)
+    ts = np.asarray(sol_dense.t, dtype=np.float64)
+    amp = np.ones(d)
+    for i in range(len(ts) - 1):
+        rn, r = c04.amp_dims(cfgd, field, d, c04.means_nd(cfgd, L.unstack(fil, i), d), float(ts[i]), float(ts[i + 1]) - float(ts[i]))
+        with np.errstate(divide="ignore", invalid="ignore"):
+            amp = np.maximum(amp, np.where(r > 0, rn / r, np.inf))
+    return amp
+
+
 def solve_grid(cfg, field, u0s, t0, hs):
     """real `solve_fixed_grid`, jitted once per (configuration, field): other initial values / grids reuse it"""
     grid = np.concatenate([[t0], t0 + np.cumsum(hs)])
@@ -180,14 +193,24 @@ def ts0_fixed_grid(ctx, cfg0, d, field, u0s, t0, hs):
         sols[fact], _ = solve_grid(cfgs[fact], field, u0s, t0, hs)
     case = L.case_of(cfg0, field, u0s, t0, {"steps": [float(h) for h in hs]})
     sigp = f"ts0:{cfg0.solver}:{cfg0.strategy}"
-    if not all(L.finite(s) for s in sols.values()):
-        if all(not L.finite(s) for s in sols.values()):
-            ctx.skip("non-finite solution in all factorisations (e.g. dynamic calibration with vanishing residual)")
+    fin = {k: L.finite(v) for k, v in sols.items()}
+    if cfg0.solver.startswith("dynamic") and fin["dense"] and fin["iso"] and not fin["bd"]:
+        # the block-diagonal dynamic scale is estimated per dimension: a single dimension whose residual vanishes
+        # identically gives 0/0 there (DESIGN D8), while dense / isotropic pool all dimensions. Block-diagonal is not
+        # related to the others in dynamic mode by the property: nothing to compare.
+        ctx.skip("dynamic mode: block-diagonal solution non-finite (one dimension with identically vanishing residual, D8); dense/iso compared")
+        sols["bd"] = None
+    elif not all(fin.values()):
+        if not any(fin.values()) or (cfg0.solver.startswith("dynamic") and not fin["dense"] and not fin["iso"]):
+            ctx.skip("non-finite solution in all related factorisations (e.g. dynamic calibration with vanishing residual)")
         else:
-            ctx.violation(f"{sigp}:finite-in-some-factorisations-only", "solution is finite in some factorisations and non-finite in others: " + str({k: L.finite(v) for k, v in sols.items()}), case)
+            ctx.violation(f"{sigp}:finite-in-some-factorisations-only", "solution is finite in some factorisations and non-finite in others: " + str(fin), case)
         return
     cfgd = cfgs["dense"]
     amp = amp_of(cfgd, field, d, sols["dense"])
+    if not amp < c04.DEGENERATE and cfg0.solver != "solver":
+        ctx.skip("the ODE residual vanishes identically (solution polynomial of degree <= q): calibrated quantities are 0/0")
+        return
     km, kc = kfactors(cfg0, amp)
     if not (km < AMP_MAX and kc < AMP_MAX):
         ctx.skip("scale-dependent comparisons skipped: whitened residual cancels below 1e-7 of its summands")
@@ -198,12 +221,12 @@ def ts0_fixed_grid(ctx, cfg0, d, field, u0s, t0, hs):
     compare_views(ctx, "ts0.dense-iso", cfgd, sols["dense"], cfgs["iso"], sols["iso"], pv, extra, km, kc, case, f"{sigp}:dense-iso")
     od = np.asarray(sols["dense"].output_scale, dtype=np.float64)
     oi = np.asarray(sols["iso"].output_scale, dtype=np.float64)
-    ob = np.asarray(sols["bd"].output_scale, dtype=np.float64)
+    ob = np.asarray(sols["bd"].output_scale, dtype=np.float64) if sols["bd"] is not None else None
     if kc < AMP_MAX:
         ds = L.rel(oi, od) / kc if calibrated else (0.0 if np.array_equal(oi, od) else float("inf"))
         ctx.dev("ts0.dense-iso.scale", ds, TOL, case=case, sig=f"{sigp}:dense-iso:output_scale", what=f"dense output scale {od.reshape(-1)[-3:]} vs isotropic {oi.reshape(-1)[-3:]}")
     for key in ("dense", "iso", "bd"):
-        if not np.array_equal(np.asarray(sols[key].num_steps), np.asarray(sols["dense"].num_steps)):
+        if sols[key] is not None and not np.array_equal(np.asarray(sols[key].num_steps), np.asarray(sols["dense"].num_steps)):
             ctx.violation(f"{sigp}:num_steps", "num_steps differ between factorisations on a fixed grid", case)
     # block-diagonal
     if cfg0.solver == "solver":
@@ -223,12 +246,16 @@ def ts0_fixed_grid(ctx, cfg0, d, field, u0s, t0, hs):
             ctx.dev("ts0.bd-mle-split", dsp, TOL, case=case, sig=f"{sigp}:bd-mle-split", what=f"mean of the block-diagonal scales^2 {split:.16e} vs dense scale^2 {s2:.16e}")
             # block-diagonal covariances: per dimension, the dense block rescaled by the ratio of the scales^2
             n = cfg0.q + 1
+            ampd = amp_per_dim(cfg0, field, d, sols["dense"])
             for a in range(d):
                 sa2 = float(ob[-1].reshape(-1)[a] ** 2)
+                if sa2 == 0.0 or not ampd[a] < AMP_MAX:
+                    ctx.skip("block-diagonal MLE scale of one dimension not determined (its residual cancels below 1e-7 of its summands or vanishes): covariance ratio not compared")
+                    continue
                 ix = np.arange(n) * d + a
                 blockd = lambda m, C, ix=ix: (m[:, ix], C[:, ix][:, :, ix])  # noqa: E731
                 blockb = lambda m, C, ix=ix, f=s2 / sa2: (m[:, ix], C[:, ix][:, :, ix] * f)  # noqa: E731
-                compare_views(ctx, "ts0.bd-per-dimension(mle)", cfgd, sols["dense"], cfgs["bd"], sols["bd"], pv[:, ix], extra[ix], 1.0, amp, dict(case, dimension=a), f"{sigp}:bd:per-dimension", pick=(blockd, blockb))
+                compare_views(ctx, "ts0.bd-per-dimension(mle)", cfgd, sols["dense"], cfgs["bd"], sols["bd"], pv[:, ix], extra[ix], 1.0, max(amp, ampd[a]), dict(case, dimension=a), f"{sigp}:bd:per-dimension", pick=(blockd, blockb))
     ctx.case(dict(cfg0.key(), d=d, mode="ts0 fixed grid", n=len(hs), order=field.order, u0=str([np.asarray(u).tolist() for u in u0s]), steps=str(hs), field=str(field.describe()["components"])[:100]))
     return sols
 
@@ -315,6 +342,9 @@ def bd_ts1_decoupled(ctx, cfg0, d, field, u0s, t0, hs):
             ctx.skip("non-finite scalar dense solution (decoupled)")
             continue
         amp = c04.amp_of_run(cfgs, fa, 1, sola, None)
+        if not amp < c04.DEGENERATE and cfg0.solver != "solver":
+            ctx.skip("the ODE residual of one dimension vanishes identically: its calibrated quantities are 0/0 (decoupled)")
+            continue
         km, kc = kfactors(cfg0, amp)
         if not (km < AMP_MAX and kc < AMP_MAX):
             ctx.skip("scale-dependent comparisons skipped: whitened residual cancels below 1e-7 of its summands (decoupled)")
@@ -344,6 +374,9 @@ def iso_ts1_scalar_jac(ctx, cfg0, d, field, u0s, t0, hs):
         ctx.skip("non-finite solution (scalar Jacobian)")
         return
     amp = c04.amp_of_run(cfgd, field, d, sold, None)
+    if not amp < c04.DEGENERATE and cfg0.solver != "solver":
+        ctx.skip("the ODE residual vanishes identically: calibrated quantities are 0/0 (scalar Jacobian)")
+        return
     km, kc = kfactors(cfg0, amp)
     if not (km < AMP_MAX and kc < AMP_MAX):
         ctx.skip("scale-dependent comparisons skipped: whitened residual cancels below 1e-7 of its summands (scalar Jacobian)")
@@ -527,13 +560,15 @@ def run(ctx):
             t0 = float(gen.pick(rng, [0.0, 0.5, -1.0]))
         return out
 
-    for it in range(ctx.n(4, 40)):
+    for it in range(ctx.n(5, 40)):
+        L.release()
         cfg, d, order = random_cfg(ctx, it, ["filter", "fixedinterval"])
         count_cfg(ctx, cfg, "ts0", d)
         for field, u0s, t0, hs in variations(cfg, d, order, "general", 2, 8):
             ts0_fixed_grid(ctx, cfg, d, field, u0s, t0, hs)
     lap("ts0 fixed grid")
-    for it in range(ctx.n(1, 12)):
+    for it in range(ctx.n(2, 12)):
+        L.release()
         cfg, d, order = random_cfg(ctx, it, ["filter", "fixedpoint"], qmax=4)
         cfg = dataclasses.replace(cfg, damp=0.0, init="exact")
         field, u0s, t0 = c04.make_problem(ctx, d, order, kind=gen.pick(rng, ["linear", "general"]))
@@ -544,6 +579,7 @@ def run(ctx):
         ts0_adaptive_pair(ctx, cfg, d, field, u0s, t0, save_at, tol, bool(rng.random() < 0.5))
     lap("adaptive dense-iso")
     for it in range(ctx.n(2, 16)):
+        L.release()
         cfg, d, order = random_cfg(ctx, it + 1, ["filter", "fixedinterval"], qmax=5)
         d = max(d, 2)
         if rng.random() < 0.5:
@@ -553,13 +589,15 @@ def run(ctx):
             bd_ts1_decoupled(ctx, cfg, d, field, u0s, t0, hs)
     lap("bd ts1 decoupled")
     for it in range(ctx.n(2, 16)):
+        L.release()
         cfg, d, order = random_cfg(ctx, it + 2, ["filter", "fixedinterval"], qmax=5)
         d = max(d, 2)
         count_cfg(ctx, cfg, "iso-ts1", d)
         for field, u0s, t0, hs in variations(cfg, d, order, "scalarjac", 2, 6):
             iso_ts1_scalar_jac(ctx, cfg, d, field, u0s, t0, hs)
     lap("iso ts1 scalar jacobian")
-    for it in range(ctx.n(1, 10)):
+    for it in range(ctx.n(1, 12)):
+        L.release()
         cfg, d, order = random_cfg(ctx, it, ["filter", "fixedinterval"], qmax=3)
         d = max(d, 2)
         field, u0s, t0 = c04.make_problem(ctx, d, order)
